@@ -392,20 +392,29 @@ def check_a1_alphabet(repo, rep):
                 return try_const(expr.slice), up
             if isinstance(expr, ast.Name):
                 defs = [n for n in body_walk(fn) if isinstance(n, ast.Assign) and len(n.targets) == 1 and U(n.targets[0]) == expr.id]
-                if len(defs) != 1:
-                    return None, up
-                expr = defs[0].value
-                continue
+                if len(defs) == 1:
+                    expr = defs[0].value
+                    continue
+                # (a, b, c, d) = match.groups()
+                tdefs = [n for n in body_walk(fn) if isinstance(n, ast.Assign) and len(n.targets) == 1 and isinstance(n.targets[0], (ast.Tuple, ast.List))
+                         and any(U(e) == expr.id for e in n.targets[0].elts)]
+                if len(tdefs) == 1 and isinstance(tdefs[0].value, ast.Call) and isinstance(tdefs[0].value.func, ast.Attribute) \
+                        and tdefs[0].value.func.attr == "groups" and U(tdefs[0].value.func.value) == mvar and not tdefs[0].value.args:
+                    idx = [U(e) for e in tdefs[0].targets[0].elts].index(expr.id)
+                    return idx + 1, up
+                return None, up
             return None, up
         return None, up
 
     # the base-26 loop
-    loops = [n for n in body_walk(fn) if isinstance(n, ast.For) and "reversed(" in U(n.iter)]
+    loops = [n for n in body_walk(fn) if isinstance(n, ast.For) and any(isinstance(c, ast.Call) and call_name(c) == "ord" for c in ast.walk(n))]
     if len(loops) != 1:
         raise AnalysisError("xl_cell_to_rowcol: base-26 loop not found")
     loop = loops[0]
-    rev = [c for c in ast.walk(loop.iter) if isinstance(c, ast.Call) and call_name(c) == "reversed"][0]
-    k, up = group_of(rev.args[0])
+    src = loop.iter
+    while isinstance(src, ast.Call) and call_name(src) in ("enumerate", "reversed", "list", "tuple") and src.args:
+        src = src.args[0]
+    k, up = group_of(src)
     ords = [c for c in ast.walk(loop) if isinstance(c, ast.Call) and call_name(c) == "ord" and c.args]
     base = [try_const(c.args[0]) for c in ords if isinstance(try_const(c.args[0]), str)]
     if len(base) != 1 or k is None or k not in groups:
@@ -467,6 +476,29 @@ VARIANTS = [
       "        if row >= MAX_ROW_COUNT:\n            msg = f\"{row} exceeds maximum row {MAX_ROW_COUNT - 1}\"\n            raise IndexError(msg)\n        if col >= MAX_COL_COUNT:",
       "        for _ in range(self.num_rows, row + 1):\n            self.add_row()\n        if row >= MAX_ROW_COUNT:\n            msg = f\"{row} exceeds maximum row {MAX_ROW_COUNT - 1}\"\n            raise IndexError(msg)\n        if col >= MAX_COL_COUNT:",
       "C11.R5"),
+    T("a1-horner-helper", "xrefs.py", """    col_str = match.group(2)
+    row_str = match.group(4)
+
+    # Convert base26 column string to number.
+    col = 0
+    for expn, char in enumerate(reversed(col_str)):
+        col += (ord(char) - ord("A") + 1) * (26**expn)
+
+    # Convert 1-index to zero-index
+    row = int(row_str) - 1
+    col -= 1
+
+    return row, col""", """    (_, col_letters, _, row_digits) = match.groups()
+    col = _letters_to_number(col_letters) - 1
+    row = int(row_digits) - 1
+    return row, col
+
+
+def _letters_to_number(letters):
+    number = 0
+    for char in letters:
+        number = number * 26 + (ord(char) - ord("A") + 1)
+    return number"""),
     T("cell-split-guards", "document.py", "        if row >= self.num_rows or row < 0:\n            msg = f\"row {row} out of range\"\n            raise IndexError(msg)\n",
       "        if row < 0:\n            raise IndexError(f\"row {row} out of range\")\n        if row > self.num_rows - 1:\n            msg = f\"row {row} out of range\"\n            raise IndexError(msg)\n"),
     T("iter-default-if-statement", "document.py", _ITER_OLD,
